@@ -98,7 +98,7 @@ func (w *World) loginPut(o *Obs) (string, bool) {
 	if !ok || uid == "" {
 		return "", false
 	}
-	if ck := o.presented("cookie"); ck != nil && o.uidBefore() == "" && w.Cfg.hasModule("remember") && !w.Cfg.hasSetup("expire") &&
+	if ck := o.presented("cookie"); ck != nil && o.uidBefore() == "" && w.rememberActive() &&
 		ck.Known != nil && usable(ck.Status) && ck.Known.Acct >= 0 && ck.Known.Acct == w.acctByPID(uid) && o.SessAfter["halfauth"] == "true" {
 		return "", false
 	}
@@ -643,7 +643,13 @@ func (w *World) execOperator(o *Obs, st *Step, secVal string) *Obs {
 			var u authboss.User
 			u, err = w.DB.Load(ctx, pid)
 			if err == nil {
-				err = w.AB.UpdatePassword(ctx, authboss.MustBeAuthable(u), secVal)
+				ab := w.AB
+				if st.str("via") == "admin" {
+					// an operator tool: its own, module-less instance over the same store
+					ab = w.adminInstance()
+					w.Stats.Reach["op_update_password_via_admin_instance"]++
+				}
+				err = ab.UpdatePassword(ctx, authboss.MustBeAuthable(u), secVal)
 			}
 		case "op_start_confirm":
 			var u authboss.User
